@@ -479,11 +479,13 @@ class Normaliser:
             c4 = self._namedtuple_unpack(fn, mod)
             c4 = self._scalar_replace_records(fn, mod) or c4
             c4 = self._join_of_generator(fn, rel, mod, cls) or c4
+            c4 = self._comprehension_with_helper(fn, rel, mod, cls, stack) or c4
             self._cur_fn = fn
             c5 = self._fold_table_comprehensions(fn, mod, cls)
             c5 = self._unroll_constant_tables(fn, mod, cls) or c5
             c5 = self._fold_constant_ifs(fn) or c5
             c5 = self._loops_over_genexp(fn) or c5
+            c5 = self._forward_adjacent_copies(fn) or c5
             c5 = self._sink_table_loops(fn, mod, cls) or c5
             for _k in range(8):
                 if not self._split_on_table_lookup(fn, mod, cls):
@@ -923,6 +925,56 @@ class Normaliser:
             ast.fix_missing_locations(fn)
             parent_of = {id(ch): nd for nd in ast.walk(fn) for ch in ast.iter_child_nodes(nd)}
             changed = True
+        return changed
+
+    def _comprehension_with_helper(self, fn: ast.AST, rel, mod, cls, stack) -> bool:
+        """`return [helper(x) for x in xs]` / `r = [helper(a, b) for a, b in pairs]` where helper is a new
+        function of several statements: the explicit loop `_c = []; for x in xs: _c.append(helper(x))`, so
+        that the helper can be merged in.  One generator, no conditions, the comprehension is the whole
+        value of the statement."""
+        changed = False
+        for blk in list(self._blocks(fn)):
+            i = 0
+            while i < len(blk):
+                st = blk[i]
+                i += 1
+                if not isinstance(st, (ast.Return, ast.Assign, ast.AnnAssign)) or getattr(st, 'value', None) is None:
+                    continue
+                comp = st.value
+                if not (isinstance(comp, ast.ListComp) and len(comp.generators) == 1 and not comp.generators[0].is_async):
+                    continue
+                g = comp.generators[0]
+                calls = [c for c in ast.walk(comp.elt) if isinstance(c, ast.Call)]
+                multi = False
+                for c in calls:
+                    r = self._callee_for(c, fn, rel, mod, cls, stack)
+                    if r is not None:
+                        body = self._body(r[0])
+                        if not (len(body) == 1 and isinstance(body[0], ast.Return)):
+                            multi = True
+                if not multi:
+                    continue
+                inner = {x.id for x in ast.walk(g.target) if isinstance(x, ast.Name)}
+                outside = {x.id for x in ast.walk(fn) if isinstance(x, ast.Name)
+                           and not any(x is y for y in ast.walk(comp))}
+                if inner & outside:
+                    continue            # the loop variable would shadow / leak
+                self._tmp = getattr(self, '_tmp', 0) + 1
+                acc = f'_c{self._tmp}'
+                body: list[ast.stmt] = [ast.Expr(value=ast.Call(
+                    func=ast.Attribute(value=ast.Name(id=acc, ctx=ast.Load()), attr='append', ctx=ast.Load()),
+                    args=[comp.elt], keywords=[]))]
+                for cond in reversed(g.ifs):
+                    body = [ast.If(test=cond, body=body, orelse=[])]
+                pre = [ast.Assign(targets=[ast.Name(id=acc, ctx=ast.Store())], value=ast.List(elts=[], ctx=ast.Load())),
+                       ast.For(target=g.target, iter=g.iter, body=body, orelse=[])]
+                st.value = ast.Name(id=acc, ctx=ast.Load())
+                for x in pre:
+                    ast.copy_location(x, st)
+                    ast.fix_missing_locations(x)
+                blk[i - 1:i - 1] = pre
+                i += len(pre)
+                changed = True
         return changed
 
     def _join_of_generator(self, fn: ast.AST, rel, mod, cls) -> bool:
@@ -1453,6 +1505,35 @@ class Normaliser:
                 del blk[i + 1]
                 changed = True
                 break
+        return changed
+
+    def _forward_adjacent_copies(self, fn: ast.AST) -> bool:
+        """`t = E; x = t` where t (a name introduced by the normal form: `_yf1`, `_h2`, `_j1x`) is read
+        nowhere else: `x = E`"""
+        changed = False
+        loads: dict[str, int] = {}
+        for n in ast.walk(fn):
+            if isinstance(n, ast.Name) and isinstance(n.ctx, ast.Load):
+                loads[n.id] = loads.get(n.id, 0) + 1
+        for blk in list(self._blocks(fn)):
+            i = 0
+            while i + 1 < len(blk):
+                a, b = blk[i], blk[i + 1]
+                if isinstance(a, ast.Assign) and len(a.targets) == 1 and isinstance(a.targets[0], ast.Name) \
+                        and a.targets[0].id.startswith('_') and isinstance(b, ast.Assign) and len(b.targets) == 1 \
+                        and isinstance(b.value, ast.Name) and b.value.id == a.targets[0].id:
+                    t = a.targets[0].id
+                    n_pairs = sum(1 for blk2 in self._blocks(fn) for j in range(len(blk2) - 1)
+                                  if isinstance(blk2[j], ast.Assign) and len(blk2[j].targets) == 1
+                                  and isinstance(blk2[j].targets[0], ast.Name) and blk2[j].targets[0].id == t
+                                  and isinstance(blk2[j + 1], ast.Assign) and isinstance(blk2[j + 1].value, ast.Name)
+                                  and blk2[j + 1].value.id == t)
+                    if loads.get(t, 0) == n_pairs:
+                        b.value = a.value
+                        del blk[i]
+                        changed = True
+                        continue
+                i += 1
         return changed
 
     def _loops_over_genexp(self, fn: ast.AST) -> bool:
@@ -2068,6 +2149,21 @@ class Normaliser:
             return None
 
         got = find(getattr(root, field), lambda v: setattr(root, field, v))
+        if got is None and isinstance(st, ast.Assign) and len(st.targets) == 1 \
+                and isinstance(st.targets[0], ast.Subscript):
+            # d[helper(a)] = value: the value is evaluated before the subscript, so it is named first
+            tgot = find(st.targets[0].slice, lambda v: setattr(st.targets[0], 'slice', v)) \
+                if not has_call(st.targets[0].value) else None
+            if tgot is not None:
+                if has_call(st.value):
+                    n = 1
+                    while f'_h{n}' in caller_names:
+                        n += 1
+                    name = f'_h{n}'
+                    val = st.value
+                    st.value = ast.copy_location(ast.Name(id=name, ctx=ast.Load()), val)
+                    return ast.copy_location(ast.Assign(targets=[ast.Name(id=name, ctx=ast.Store())], value=val), st)
+                got = tgot
         if got is None:
             return None
         call, setter = got
@@ -2156,6 +2252,7 @@ class Normaliser:
         callee, recv, owner_rel, nested = r
         if callee.name in stack or not self._acceptable_generator(callee):
             return None
+        callee = self._prepared_generator(callee)
 
         def own_jumps(stmts) -> bool:
             for x in stmts:
@@ -2274,7 +2371,38 @@ class Normaliser:
             res.append(x)
         return res
 
+    def _prepared_generator(self, callee: ast.FunctionDef) -> ast.FunctionDef:
+        """the generator with `yield from E` written as `for _yf in E: yield _yf` (cached clone)"""
+        cache = getattr(self, '_gen_cache', None)
+        if cache is None:
+            cache = self._gen_cache = {}
+        if id(callee) in cache:
+            return cache[id(callee)]
+        if not any(isinstance(n, ast.YieldFrom) for n in ast.walk(callee)):
+            cache[id(callee)] = callee
+            return callee
+        new = clone(callee)
+        counter = [0]
+        ok = True
+        for blk in list(self._blocks(new)):
+            for i, st in enumerate(blk):
+                if isinstance(st, ast.Expr) and isinstance(st.value, ast.YieldFrom):
+                    counter[0] += 1
+                    v = f'_yf{counter[0]}'
+                    loop = ast.For(target=ast.Name(id=v, ctx=ast.Store()), iter=st.value.value,
+                                   body=[ast.Expr(value=ast.Yield(value=ast.Name(id=v, ctx=ast.Load())))], orelse=[])
+                    ast.copy_location(loop, st)
+                    ast.fix_missing_locations(loop)
+                    blk[i] = loop
+        if any(isinstance(n, ast.YieldFrom) for n in ast.walk(new)):
+            ok = False
+        cache[id(callee)] = new if ok else callee
+        if ok:
+            cache[id(new)] = new
+        return cache[id(callee)]
+
     def _acceptable_generator(self, callee: ast.FunctionDef) -> bool:
+        callee = self._prepared_generator(callee)
         a = callee.args
         if a.vararg or a.posonlyargs or a.kwarg:
             return False
